@@ -204,6 +204,16 @@ func FixedFed() FedSpec {
 	return buildFed([]string{"A", "B", "C"}, owners)
 }
 
+// SingleFed: one service owning everything (a gateway in front of a single service still joins: through its own
+// `node` field and the query fields it is given)
+func SingleFed() FedSpec {
+	owners := map[string][]string{}
+	for k := range FixedFed().Owners {
+		owners[k] = []string{"A"}
+	}
+	return buildFed([]string{"A"}, owners)
+}
+
 // FixedFed2 co-locates allPhotos and Photo.likedBy (two nested lists in one step) and joins User fields from
 // other services beneath them; allPhotos contains a null element.
 func FixedFed2() FedSpec {
